@@ -528,6 +528,25 @@ proof fn axiom_empty_string_bytes()
 //@|         str_bytes(s) == raw.response.body@ && serde_json::parse_spec(s) == Some(v) && f.ensures((v,), w) && r.body@ == str_bytes(serde_json::print_spec(w)),
 //@end
 
+// ---------------------------------------------------------------------------------------------------------------------
+// C18: every `transform_*` query of lib.rs goes through HttpRequestConfig::transform (http.rs:40): its answer IS the endpoint's transform
+// of the raw response — nothing is answered past it (so what the transforms guarantee — no headers, canonical body — is what leaves)
+// R7: the call through the `fn` pointer field `(self.transform_implementation)(raw)` => vp_call_transform(self, raw)
+// ---------------------------------------------------------------------------------------------------------------------
+// [trusted:stand-in] HttpRequestConfig as far as `transform` reads it; the stored fn pointer is an uninterpreted function of the raw response
+struct HttpRequestConfig { request_id: u64, transform_id: u64 }
+uninterp spec fn transform_impl_spec(c: &HttpRequestConfig, raw: TransformArgs) -> HttpRequestResult;
+#[verifier::external_body]
+fn vp_call_transform(c: &HttpRequestConfig, raw: TransformArgs) -> (r: HttpRequestResult) ensures r == transform_impl_spec(c, raw) { unimplemented!() }
+impl HttpRequestConfig {
+//@extract file=watchdog/src/http.rs in="impl HttpRequestConfig" item="fn transform" props=C18
+//@ ret r
+//@ rewrite R7 "\(self\.transform_implementation\)\(raw\)" => "vp_call_transform(self, raw)"
+//@ spec
+//@| ensures r == transform_impl_spec(self, raw),
+//@end
+}
+
 proof fn vp_canary_axioms()
     ensures false,
 {}
